@@ -66,7 +66,12 @@ def render(spec, cls_suffix=""):
     # listener + model classes
     for prov in listeners + ["model"]:
         cname = f"Mod_{uid}" if prov == "model" else f"{prov.upper()}_{uid}"
-        L.append(f"class {cname}:")
+        if prov == "model" and spec.get("mixin"):
+            L.append(f"class {cname}(MachineMixin):")
+            L.append(f"    state_machine_name = 'vmon_dyn_{uid}.M_{uid}'")
+            L.append("    bind_events_as_methods = True")
+        else:
+            L.append(f"class {cname}:")
         body = []
         if prov == "model":
             fld = spec.get("state_field", "state")
@@ -176,13 +181,14 @@ def load(spec, rec, source=None, cls_suffix=""):
     """exec the rendered source in a module registered in sys.modules (pickle-friendly)."""
     from statemachine import State, StateMachine
     from statemachine.event import Event
+    from statemachine.mixins import MachineMixin
     from statemachine.states import States
 
     uid = f"{spec['uid']}{cls_suffix}"
     source = source if source is not None else render(spec, cls_suffix)
     modname = f"vmon_dyn_{uid}"
     mod = types.ModuleType(modname)
-    mod.__dict__.update({"State": State, "StateMachine": StateMachine, "Event": Event, "States": States, "REC": rec})
+    mod.__dict__.update({"State": State, "StateMachine": StateMachine, "Event": Event, "States": States, "REC": rec, "MachineMixin": MachineMixin})
     for k, v in spec.get("ns_extra", {}).items():
         mod.__dict__[k] = v
     sys.modules[modname] = mod
@@ -198,8 +204,11 @@ def provider_objects(spec, mod, cls_suffix=""):
     """Instantiate model and listener objects of a loaded spec."""
     uid = f"{spec['uid']}{cls_suffix}"
     objs = {}
+    if spec.get("mixin"):
+        # the mixin model builds its machine in __init__: instantiated by the construct step
+        objs["model"] = None
     for prov in spec["providers"] + spec.get("late", []):
-        if prov == "sm":
+        if prov == "sm" or (prov == "model" and spec.get("mixin")):
             continue
         cname = f"Mod_{uid}" if prov == "model" else f"{prov.upper()}_{uid}"
         objs[prov] = getattr(mod, cname)()
